@@ -77,7 +77,7 @@ func runC19(r *Run, p *Prog) {
 		}
 	}
 	var listenFns []*ssa.Function // functions that create a listener from (network, address)
-	for _, f := range p.FuncsOf(pkgVarlink) {
+	for _, f := range p.LibFuncs() {
 		for _, cs := range callsNamed(f, false, "net.ListenConfig.Listen", "net.Listen") {
 			_ = cs
 			listenFns = appendFn(listenFns, f)
